@@ -395,11 +395,23 @@ Model assumption → obligation that checks it against the source:
 | in `subscribe` the only access to the node outside `assert` is the CAS's expected value (`_next`, read and written back), not after the successful CAS | `c03_signal_subscribe_accesses` |
 | per node the walker reads `_next`, writes `_next`, calls `resume()`, in this order | `c03_signal_walk_accesses` |
 
-ASSUMED, not checked against the source (the functions of `signal.h` are not among `SHARED_FUNCS` of `extract/extract.py`, so
-`Generated.plainAccesses` has no rows for them): `collector::operator()` writes `_value_storage` / `_cur_val` BEFORE `notify_awaiters()` and
-nothing after it; `~state` writes `_cur_val` before `notify_awaiters()`; `emitter::await_suspend` calls `set_handle` before `subscribe` and
-touches nothing of the awaiter afterwards; `emitter::await_resume` reads `_cur_val` only under a `lock()`ed strong reference; `Awt::resume`
-and `Awt::initial_reg` call `subscribe` last.  (Read off `signal.h` by hand when the model was written.) -/
+Position facts about `signal.h` itself (rows of `Generated.plainAccesses` for the functions of `signal.h`: `SIGNAL_FUNCS` … of
+`extract/extract.py`, designated per class; obligations at the end of this section, stated over ROLES — "a value location", "a node set-up
+call", "a member of the awaiter object itself", "the classes local to `connect`" — not over the names of locals or of private members):
+
+| assumption of `SignalClock.lean` | obligation |
+|---|---|
+| `collector::operator()`, every overload: `_value_storage` / `_cur_val` are written BEFORE `notify_awaiters()`, no access to them after it (`hbEmit`) | `c03_signal_collector_writes_before_notify` |
+| `~state`: `_cur_val` is written before `notify_awaiters()`, no access to a value location after it (`hbDtor`) | `c03_signal_dtor_clears_before_notify` |
+| `notify_awaiters()` is one point for those two: it is the `resume_chain` exchange and touches no value location | `c03_signal_notify_is_resume_chain` |
+| `emitter::await_suspend`: `lock()`, `set_handle`, then ONE `subscribe`, nothing of the awaiter after it (`hbTry`) | `c03_signal_emitter_sets_up_before_subscribe` |
+| the callback awaiter of `connect` (local class): `set_resume_fn` in the constructor, which does not subscribe; the other member functions do not set the node up, write no member of the object, `lock()` before `subscribe`, touch nothing of the object after `subscribe` | `c03_signal_emitter_sets_up_before_subscribe` |
+| `emitter::await_resume`: ONE read of `_cur_val`, under the `lock()`ed strong reference, no write | `c03_signal_await_resume_reads_cur_val` |
+
+Still ASSUMED (not expressible over the table): the VALUE `~state` stores is `nullptr` (the table has positions, not values); calls of
+the callback `_fn` and of other member functions are not rows, so "`_fn` is not called after `subscribe`" in the callback awaiter is read
+off by hand; the table is in LEXICAL order, alternatives of an `if` / `if constexpr` count as following each other (hence "only further
+`subscribe` calls after the first one"); `hook_up_emitter::await_suspend` is not modelled (single-threaded set-up of a fresh state). -/
 
 /-- synchronising operations outside assertions of one function, as (kind, object), in source order -/
 def shapeIn (tbl : List Site) (cls fn : String) : List (OpKind × String) :=
@@ -525,5 +537,176 @@ theorem c03_signal_subscribe_accesses :
 theorem c03_signal_walk_accesses :
     (plainShape Generated.plainAccesses "awaiter" "resume_chain_lk").map (fun r => (r.1, r.2.1, r.2.2.1))
       = [("chain", "_next", false), ("y", "_next", true), ("", "call:resume", false)] := by decide
+
+
+/-! ### position facts about `signal.h` the model assumes -/
+
+/-- the rows of (class, function), split into its overloads (the position counter restarts at 0 for every function body) -/
+def sigOverloads (tbl : List PlainAccess) (cls fn : String) : List (List PlainAccess) :=
+  (tbl.filter (fun a => a.cls == cls && a.fn == fn)).foldr (fun a acc =>
+    match acc with
+    | [] => [[a]]
+    | seg :: rest => if (seg.head?.map (·.pos)).getD 0 == 0 then [a] :: seg :: rest else (a :: seg) :: rest) []
+
+/-- ROLE "a value location of the signal state": `_cur_val`, `_value_storage` through whatever object expression, or a store through a
+pointer (pseudo field `*…`) -/
+def isSigValue (a : PlainAccess) : Bool :=
+  a.field == "_cur_val" || a.field == "_value_storage" || a.field.toList.head? == some '*'
+
+def isCall (a : PlainAccess) (name : String) : Bool := a.field == "call:" ++ name
+
+/-- ROLE "set-up of the awaiter node": `set_handle` / `set_resume_fn` -/
+def isNodeSetup (a : PlainAccess) : Bool := isCall a "set_handle" || isCall a "set_resume_fn"
+
+/-- ROLE "something of the awaiter object itself": a member of `*this` under any name, a store through a pointer, or a node set-up call
+(calls of OTHER member functions and of the callback are not rows of the table) -/
+def isOwnTouch (a : PlainAccess) : Bool :=
+  isNodeSetup a || (a.base == "" && a.field.toList.take 5 != "call:".toList) || a.field.toList.head? == some '*'
+
+/-- one function body: there is a `notify_awaiters()` call, `_cur_val` is written, every access (read or write, assertions included) to a
+value location precedes every `notify_awaiters()` call — so nothing of the value is written or read by the collector's code once the
+chain has been taken -/
+def valueBeforeNotify (seg : List PlainAccess) : Bool :=
+  let notes := (seg.filter (fun a => isCall a "notify_awaiters")).map (·.pos)
+  notes.length ≥ 1
+  && (seg.any (fun a => a.field == "_cur_val" && a.write && !a.inAssert))
+  && (seg.filter isSigValue).all (fun a => notes.all (fun n => a.pos < n))
+
+/-- every overload of `collector::operator()` (`SignalClock.hbEmit`: value, `_value_storage`, `_cur_val`, THEN the exchange) -/
+def collectorWritesBeforeNotify (tbl : List PlainAccess) : Bool :=
+  let segs := sigOverloads tbl "signal::collector" "operator()"
+  segs.length ≥ 1 && segs.all valueBeforeNotify
+
+/-- `~state` (`SignalClock.hbDtor`: `_cur_val = nullptr`, THEN the exchange) -/
+def dtorClearsBeforeNotify (tbl : List PlainAccess) : Bool :=
+  let segs := sigOverloads tbl "signal::state" "~state"
+  segs.length == 1 && segs.all valueBeforeNotify
+
+/-- `state::notify_awaiters` is the exchange on the chain (`awaiter::resume_chain`) and touches no value location: the call is one
+point in the order of the caller's rows -/
+def notifyIsResumeChain (tbl : List PlainAccess) : Bool :=
+  let rows := tbl.filter (fun a => a.cls == "signal::state" && a.fn == "notify_awaiters")
+  (rows.filter (fun a => isCall a "resume_chain" && !a.inAssert)).length == 1 && !(rows.any isSigValue)
+
+/-- rows of the classes local to `signal::connect` (the callback awaiter; its class and member names are nobody's interface) -/
+def connectLocalRows (tbl : List PlainAccess) : List PlainAccess :=
+  tbl.filter (fun a => "signal::connect::".toList.isPrefixOf a.cls.toList)
+
+/-- name of the constructor of a class given as `a::b::C`: `C` -/
+def ctorNameOf (cls : String) : String := String.ofList ((cls.toList.reverse.takeWhile (· != ':')).reverse)
+
+/-- one function body that publishes the awaiter: once `subscribe` has been called nothing of the awaiter object is touched any more and the
+node is not set up any more — the only rows after the first `subscribe` are further `subscribe` calls (the alternatives of an
+`if` / `if constexpr`: the table is in lexical order) -/
+def nothingAfterSubscribe (seg : List PlainAccess) : Bool :=
+  match ((seg.filter (fun a => isCall a "subscribe")).map (·.pos)).head? with
+  | none => true
+  | some p => (seg.filter (fun a => a.pos > p && isOwnTouch a)).isEmpty
+
+/-- `emitter::await_suspend` (`SignalClock.hbTry` after the node's initialisation): the strong reference is taken (`lock()`), the handle is
+set, then — once — `subscribe`, and nothing of the awaiter after it.  The callback awaiter of `connect`: the resume function is set by
+the constructor, which does not subscribe; no other member function sets the node up or writes a member of the object; each
+of them takes the strong reference before it subscribes and touches nothing of the object after `subscribe`. -/
+def emitterSetsUpBeforeSubscribe (tbl : List PlainAccess) : Bool :=
+  let segs := sigOverloads tbl "signal::emitter" "await_suspend"
+  let loc := connectLocalRows tbl
+  let ctor := loc.filter (fun a => a.fn == ctorNameOf a.cls)
+  let rest := loc.filter (fun a => a.fn != ctorNameOf a.cls)
+  segs.length == 1
+  && segs.all (fun seg =>
+      (seg.filter (fun a => isCall a "subscribe")).length == 1
+      && seg.any (fun a => isCall a "set_handle" && !a.inAssert)
+      && (seg.filter isNodeSetup).all (fun a => (seg.filter (fun b => isCall b "subscribe")).all (fun b => a.pos < b.pos))
+      && (seg.filter (fun a => isCall a "subscribe")).all (fun b => seg.any (fun a => isCall a "lock" && a.pos < b.pos))
+      && nothingAfterSubscribe seg)
+  && ctor.any (fun a => isCall a "set_resume_fn" && !a.inAssert)
+  && !(ctor.any (fun a => isCall a "subscribe"))
+  && rest.any (fun a => isCall a "subscribe")
+  && !(rest.any (fun a => isNodeSetup a || (isOwnTouch a && a.write)))
+  && (rest.map (fun a => (a.cls, a.fn))).eraseDups.all (fun cf =>
+      (sigOverloads rest cf.1 cf.2).all (fun seg =>
+        nothingAfterSubscribe seg
+        && (seg.filter (fun a => isCall a "subscribe")).all (fun b => seg.any (fun a => isCall a "lock" && a.pos < b.pos))))
+
+/-- `emitter::await_resume` (`SignalClock`: ONE read of `_cur_val`, under the `lock()`ed strong reference): outside assertions exactly one
+row on a value location — a read of `_cur_val`, after a `lock()` call — and no write to one anywhere -/
+def awaitResumeReadsCurVal (tbl : List PlainAccess) : Bool :=
+  let segs := sigOverloads tbl "signal::emitter" "await_resume"
+  segs.length == 1
+  && segs.all (fun seg =>
+      !(seg.any (fun a => isSigValue a && a.write))
+      && match seg.filter (fun a => isSigValue a && !a.inAssert) with
+         | [r] => r.field == "_cur_val" && seg.any (fun a => isCall a "lock" && a.pos < r.pos)
+         | _ => false)
+
+/-- **Table obligation**: in every overload of `collector::operator()` every access to `_value_storage` / `_cur_val` precedes the
+`notify_awaiters()` call, `_cur_val` is written, nothing of the value is touched after the call -/
+theorem c03_signal_collector_writes_before_notify : collectorWritesBeforeNotify Generated.plainAccesses = true := by decide
+
+/-- **Table obligation**: `~state` writes `_cur_val` before its `notify_awaiters()` and touches no value location after it -/
+theorem c03_signal_dtor_clears_before_notify : dtorClearsBeforeNotify Generated.plainAccesses = true := by decide
+
+/-- **Table obligation**: `state::notify_awaiters` = `awaiter::resume_chain(_chain)`, no value location -/
+theorem c03_signal_notify_is_resume_chain : notifyIsResumeChain Generated.plainAccesses = true := by decide
+
+/-- **Table obligation**: the node is set up before it is published and nothing of the awaiter is touched after `subscribe`, in
+`emitter::await_suspend` and in every member function of the callback awaiter of `connect` -/
+theorem c03_signal_emitter_sets_up_before_subscribe : emitterSetsUpBeforeSubscribe Generated.plainAccesses = true := by decide
+
+/-- **Table obligation**: `emitter::await_resume` reads `_cur_val` once, holding the strong reference, and writes no value location -/
+theorem c03_signal_await_resume_reads_cur_val : awaitResumeReadsCurVal Generated.plainAccesses = true := by decide
+
+/-- the rows exist: three collector overloads, the callback awaiter's constructor and at least two more member functions of it
+(an emptied table must not satisfy the obligations vacuously — the `length` / `any` clauses above say the same per obligation) -/
+theorem c03_signal_rows_present :
+    (sigOverloads Generated.plainAccesses "signal::collector" "operator()").length = 3
+    ∧ ((connectLocalRows Generated.plainAccesses).map (fun a => (a.cls, a.fn))).eraseDups.length ≥ 3 := by decide
+
+private def row (cls fn base field : String) (write : Bool) (pos : Nat) : PlainAccess :=
+  { cls := cls, fn := fn, base := base, field := field, write := write, pos := pos, nOps := 0, inAssert := false }
+
+/-- `_cur_val` assigned after `notify_awaiters()` in one overload (here: the lvalue one) is rejected -/
+example : collectorWritesBeforeNotify
+    [row "signal::collector" "operator()" "_state" "_cur_val" true 0, row "signal::collector" "operator()" "" "call:notify_awaiters" false 1,
+     row "signal::collector" "operator()" "" "call:notify_awaiters" false 0, row "signal::collector" "operator()" "_state" "_cur_val" true 1] = false := by
+  decide
+
+/-- a READ of the storage after the call is rejected as well, under any object expression -/
+example : collectorWritesBeforeNotify
+    [row "signal::collector" "operator()" "st" "_cur_val" true 0, row "signal::collector" "operator()" "" "call:notify_awaiters" false 1,
+     row "signal::collector" "operator()" "st" "_value_storage" false 2] = false := by decide
+
+/-- `await_suspend` as the model has it, and a callback awaiter under other names (class `W`, functions `go` / `again`, members `_ref`,
+`_count`) -/
+private def suspendOk : List PlainAccess :=
+  [row "signal::emitter" "await_suspend" "" "_wk_state" false 0, row "signal::emitter" "await_suspend" "" "call:lock" false 1,
+   row "signal::emitter" "await_suspend" "" "call:set_handle" false 2, row "signal::emitter" "await_suspend" "" "call:subscribe" false 3]
+private def callbackOk : List PlainAccess :=
+  [row "signal::connect::W" "W" "" "call:set_resume_fn" false 0,
+   row "signal::connect::W" "go" "" "_ref" false 0, row "signal::connect::W" "go" "" "call:lock" false 1,
+   row "signal::connect::W" "go" "" "call:subscribe" false 2, row "signal::connect::W" "go" "" "call:subscribe" false 3,
+   row "signal::connect::W" "again" "" "_ref" false 0, row "signal::connect::W" "again" "" "call:lock" false 1,
+   row "signal::connect::W" "again" "" "call:subscribe" false 2]
+
+/-- accepted: the obligation does not depend on `Awt`, `resume`, `initial_reg`, `st`, `_wk_state` -/
+example : emitterSetsUpBeforeSubscribe (suspendOk ++ callbackOk) = true := by decide
+
+/-- `subscribe` before `set_handle` in `await_suspend` is rejected -/
+example : emitterSetsUpBeforeSubscribe
+    ([row "signal::emitter" "await_suspend" "" "_wk_state" false 0, row "signal::emitter" "await_suspend" "" "call:lock" false 1,
+      row "signal::emitter" "await_suspend" "" "call:subscribe" false 2, row "signal::emitter" "await_suspend" "" "call:set_handle" false 3]
+     ++ callbackOk) = false := by decide
+
+/-- a member of the callback awaiter touched after `subscribe` is rejected, whatever the class, the function and the member are called;
+so are a node set-up outside the constructor and a constructor that subscribes -/
+example : emitterSetsUpBeforeSubscribe (suspendOk ++ callbackOk ++ [row "signal::connect::W" "again" "" "_count" false 3]) = false
+    ∧ emitterSetsUpBeforeSubscribe (suspendOk ++ callbackOk ++ [row "signal::connect::W" "again" "" "call:set_resume_fn" false 3]) = false
+    ∧ emitterSetsUpBeforeSubscribe (suspendOk ++ callbackOk ++ [row "signal::connect::W" "W" "" "call:subscribe" false 1]) = false := by
+  decide
+
+/-- two reads of `_cur_val` in `await_resume` are rejected -/
+example : awaitResumeReadsCurVal
+    [row "signal::emitter" "await_resume" "" "call:lock" false 0, row "signal::emitter" "await_resume" "s" "_cur_val" false 1,
+     row "signal::emitter" "await_resume" "s" "_cur_val" false 2] = false := by decide
 
 end Cocls.C03b
